@@ -38,7 +38,7 @@ CRASHY = ("fatal", "timeout", "oom", "crash-")
 
 def same_class(got, want):
     """A run that dies (fault, memory limit, time limit) may die differently when it is repeated alone: one crash class confirms another."""
-    return got == want or (got.startswith(CRASHY) and want.startswith(CRASHY))
+    return got == want or want.endswith(":" + got) or (got.startswith(CRASHY) and want.startswith(CRASHY))      # plans prefix a label to some verdicts
 
 
 def find_case(ctx, cid):
@@ -276,7 +276,7 @@ def plan_C16(ctx):
     for c in cases:
         c["cfg"] = fam_codec.CFGS["jsonany"]
     cod = [c for c in cases if c["ev"] == "codec"]
-    evo = [c for c in cases if c["ev"] == "evolve"]
+    evo = [c for c in cases if c["ev"] == "evolve" and not c["u"][0].startswith("re")]      # decoding into re-used JSON containers is C10's
     p1 = os.path.join(ctx.work, "codec_cases.ndjson")
     p2 = os.path.join(ctx.work, "evolve_cases.ndjson")
     fam_codec.write_cases(cod, p1, 0)
@@ -333,6 +333,22 @@ def decode_family(ctx, kinds, n_quick, n_thorough, with_codec_sessions=False):
             jst[k] = jst.get(k, 0) + jst2.get(k, 0)
         all_traces.append(tc)
         ctx.codec_ids = 9000000
+        # JSON-any containers (registered JSON codecs) decoded into variables that already hold an empty / shorter / longer container
+        jc, stj = fam_codec.mc_generic(ctx.work, "MCJsonAny", '  Env <- MCEnv\n  Leaves = {"nil", "z", "es"%s}\n  Depth = 2\n  Emit = TRUE\n' % ("" if ctx.quick else ', "f15", "a"'),
+                                       "RoundTrip Skippable MatcherSound", timeout=3000)
+        ctx.add_mc(stj)
+        jc = [c for c in jc if c["ev"] == "evolve" and c["u"][0].startswith("re")]
+        for c in jc:
+            c["cfg"] = fam_codec.CFGS["jsonany"]
+        pj = os.path.join(ctx.work, "json_reuse_cases.ndjson")
+        fam_codec.write_cases(jc, pj, 9500000)
+        ctx.case_files.append(pj)
+        tj = fam_codec.run_cases(ctx.pvh, pj, ctx.work, "jsonreuse")
+        v3, jst3 = vlib.judge(ctx.work, "TraceDecode", tj, ctx.env, ctx.open, tag="jsonreusej")
+        verdicts += [(i, p, "json-container-reused:" + r) for (i, p, r) in v3 if p == ctx.prop]
+        for k in ("events", "generated", "distinct"):
+            jst[k] = jst.get(k, 0) + jst3.get(k, 0)
+        all_traces.append(tj)
     rule = ("S->C: MCEvolve's universe (S = 3 fields over one kind per wire type / container form, S' = 6 removal / reorder / addition variants, "
             "zero and non-zero values, pre-populated targets, nesting %s); C->S: %d random cases per kind %s (derived S', targets pre-populated with "
             "longer / shorter slices incl. stale elements beyond len, overlapping map keys, non-nil pointers; sessions of 50 share one instance)."
